@@ -149,7 +149,7 @@ theorem PI_unitVariant (o : Options) (ext : Ext) (h0 : o.overwrites = []) (nm : 
         unfold Options.string_type; split
         · exact .inr rfl
         · exact .inl rfl
-      rcases hst with hst | hst <;> simp [interpScalar, interpDictStr, hst, scalarToString]
+      rcases hst with hst | hst <;> simp [interpScalar_eq_old, normErr_ok_iff, interpScalarOld, interpDictStr, dictValue, liftO, hst, scalarToString]
     · intro fs mode e; cases e
   · obtain ⟨g, hg1, hg2⟩ := variants_to_fields_get vs2 0 fields idx vn c2 hfs hc2
     obtain ⟨gn, cdt, cn, cmd⟩ := g
